@@ -29,10 +29,14 @@ type Vol struct {
 	Crev  uint32
 }
 type Disk struct {
-	Type string
-	Max  uint64
-	Vols []Vol
+	Type  string
+	Max   uint64
+	Extra uint64 // VolumeCount = len(Vols) + Extra (slots the master counts but the snapshot does not list)
+	Vols  []Vol
 }
+
+func (d *Disk) count() uint64 { return uint64(len(d.Vols)) + d.Extra }
+
 type Node struct {
 	Dc, Rack, Num int // rack number local to the dc, node number global (1-based)
 	Disks         []*Disk
@@ -75,6 +79,8 @@ func dtNum(s string) uint64 {
 		return 0
 	case "ssd":
 		return 1
+	case "nvme":
+		return 2
 	}
 	panic("bad disk type " + s)
 }
@@ -106,9 +112,9 @@ func (s *Snap) topo() *master_pb.TopologyInfo {
 		}
 		dn := &master_pb.DataNodeInfo{Id: nodeName(n.Num), DiskInfos: map[string]*master_pb.DiskInfo{}}
 		for _, d := range n.Disks {
-			di := &master_pb.DiskInfo{Type: d.Type, MaxVolumeCount: d.Max, VolumeCount: uint64(len(d.Vols))}
-			if d.Max >= uint64(len(d.Vols)) {
-				di.FreeVolumeCount = d.Max - uint64(len(d.Vols))
+			di := &master_pb.DiskInfo{Type: d.Type, MaxVolumeCount: d.Max, VolumeCount: d.count()}
+			if d.Max >= d.count() {
+				di.FreeVolumeCount = d.Max - d.count()
 			}
 			for _, v := range d.Vols {
 				di.VolumeInfos = append(di.VolumeInfos, &master_pb.VolumeInformationMessage{
@@ -137,7 +143,7 @@ func (s *Snap) coq() string {
 					hx.N(uint64(v.Id)), hx.N(collNum(v.Coll)), hx.N(uint64(v.Rp)), hx.N(v.Size), hx.Bool(v.Ro), hx.N(dtNum(v.Dt)), hx.N(uint64(v.Mtime)), hx.N(uint64(v.Crev))))
 			}
 			disks = append(disks, fmt.Sprintf("{| d_type := %s; d_max := %s; d_count := %s; d_vols := %s |}",
-				hx.N(dtNum(d.Type)), hx.Z(int64(d.Max)), hx.Z(int64(len(d.Vols))), hx.List(vols)))
+				hx.N(dtNum(d.Type)), hx.Z(int64(d.Max)), hx.Z(int64(d.count())), hx.List(vols)))
 		}
 		nodes = append(nodes, fmt.Sprintf("{| n_loc := %s; n_disks := %s |}", coqLoc(n.Dc, n.Rack, n.Num), hx.List(disks)))
 	}
@@ -149,9 +155,9 @@ func (s *Snap) canon() string {
 	for _, n := range s.Nodes {
 		fmt.Fprintf(&sb, "%d/%d/%d:", n.Dc, n.Rack, n.Num)
 		for _, d := range n.Disks {
-			fmt.Fprintf(&sb, "[%s %d", d.Type, d.Max)
+			fmt.Fprintf(&sb, "[%s %d+%d", d.Type, d.Max, d.Extra)
 			for _, v := range d.Vols {
-				fmt.Fprintf(&sb, " %d.%s.%d.%d.%v.%d.%d", v.Id, v.Coll, v.Rp, v.Size, v.Ro, v.Mtime, v.Crev)
+				fmt.Fprintf(&sb, " %d.%s.%d.%d.%v.%s.%d.%d", v.Id, v.Coll, v.Rp, v.Size, v.Ro, v.Dt, v.Mtime, v.Crev)
 			}
 			sb.WriteString("]")
 		}
@@ -162,13 +168,14 @@ func (s *Snap) canon() string {
 
 // ---------- plan parsing (strict) ----------
 var (
-	reMove    = regexp.MustCompile(`^  moving ([a-z]*) volume (?:([a-z0-9]+)_)?([0-9]+) (n[0-9]+) => (n[0-9]+)$`)
-	reSkip    = regexp.MustCompile(`^skipping non moveable volume ([0-9]+) replication:([0-9]{3})$`)
-	reOver    = regexp.MustCompile(`^volume ([0-9]+) replication ([0-9]{3}), but over replicated \+([0-9]+)$`)
-	reDelete  = regexp.MustCompile(`^deleting volume ([0-9]+) from (n[0-9]+) \.\.\.$`)
-	reCopy    = regexp.MustCompile(`^replicating volume ([0-9]+) ([0-9]{3}) from (n[0-9]+) to dataNode (n[0-9]+) \.\.\.$`)
-	reNoPlace = regexp.MustCompile(`^failed to place volume ([0-9]+) replica as ([0-9]{3}), existing:\+?([0-9]+)$`)
-	reFailErr = regexp.MustCompile(`^failed to move volume ([0-9]+) from (n[0-9]+)$`)
+	reMove     = regexp.MustCompile(`^  moving ([a-z]*) volume (?:([a-z0-9]+)_)?([0-9]+) (n[0-9]+) => (n[0-9]+)$`)
+	reSkip     = regexp.MustCompile(`^skipping non moveable volume ([0-9]+) replication:([0-9]{3})$`)
+	reOver     = regexp.MustCompile(`^volume ([0-9]+) replication ([0-9]{3}), but over replicated \+([0-9]+)$`)
+	reDelete   = regexp.MustCompile(`^deleting volume ([0-9]+) from (n[0-9]+) \.\.\.$`)
+	reCopy     = regexp.MustCompile(`^replicating volume ([0-9]+) ([0-9]{3}) from (n[0-9]+) to dataNode (n[0-9]+) \.\.\.$`)
+	reNoPlace  = regexp.MustCompile(`^failed to place volume ([0-9]+) replica as ([0-9]{3}), existing:\+?([0-9]+)$`)
+	reFailErr  = regexp.MustCompile(`^failed to move volume ([0-9]+) from (n[0-9]+)$`)
+	reNotFound = regexp.MustCompile(`^(n[0-9]+) is not found in this cluster$`)
 )
 
 func lines(text string) []string {
@@ -187,10 +194,47 @@ func u(s string) uint64 {
 	return v
 }
 
+// number of moves of the last balance / evacuate run whose target was full (see fullTargets)
+var lastFullTargets int
+
 func okPlan(p shell.VerifC15Plan, what string) {
 	if p.Panic != "" {
 		panic(what + ": planner panicked: " + p.Panic)
 	}
+}
+
+// fullTargets replays the moves (disk type, target) of a plan on the true occupancy of the
+// snapshot and counts those whose target had no free slot of that disk type at that moment
+// (statistics for the evidence only; the verdict is computed in Coq).
+type mv struct {
+	dt       string
+	from, to int
+}
+
+func fullTargets(s *Snap, moves []mv) int {
+	occ := map[int]map[string]int{}
+	max := map[int]map[string]int{}
+	for _, n := range s.Nodes {
+		occ[n.Num], max[n.Num] = map[string]int{}, map[string]int{}
+		for _, d := range n.Disks {
+			max[n.Num][d.Type] = int(d.Max)
+			for _, v := range d.Vols {
+				occ[n.Num][v.Dt]++
+			}
+		}
+	}
+	full := 0
+	for _, m := range moves {
+		if occ[m.to] == nil {
+			continue
+		}
+		if occ[m.to][m.dt] >= max[m.to][m.dt] {
+			full++
+		}
+		occ[m.to][m.dt]++
+		occ[m.from][m.dt]--
+	}
+	return full
 }
 
 // ---------- the three runs ----------
@@ -201,11 +245,14 @@ func runBalance(s *Snap, colls []string) (string, bool, int) {
 		panic("balance: unexpected error " + p.Err)
 	}
 	var steps []string
+	var moves []mv
+	defer func() { lastFullTargets = fullTargets(s, moves) }()
 	for _, l := range lines(p.Text) {
 		m := reMove.FindStringSubmatch(l)
 		if m == nil {
 			panic(fmt.Sprintf("balance: unknown plan line %q", l))
 		}
+		moves = append(moves, mv{m[1], int(nodeNum(m[4])), int(nodeNum(m[5]))})
 		steps = append(steps, fmt.Sprintf("Move %s %s %s %s", hx.N(u(m[3])), hx.N(dtNum(m[1])), hx.N(nodeNum(m[4])), hx.N(nodeNum(m[5]))))
 	}
 	var cs []string
@@ -242,11 +289,14 @@ func runEvac(s *Snap, node int, skip bool) (string, bool, int) {
 	okPlan(p, "evacuate")
 	var evs []string
 	moves := 0
+	var mvs []mv
+	defer func() { lastFullTargets = fullTargets(s, mvs) }()
 	for _, l := range lines(p.Text) {
 		if m := reMove.FindStringSubmatch(l); m != nil {
 			if nodeNum(m[4]) != uint64(node) {
 				panic("evacuate: move from another node: " + l)
 			}
+			mvs = append(mvs, mv{m[1], node, int(nodeNum(m[5]))})
 			evs = append(evs, fmt.Sprintf("EMove %s %s %s", hx.N(u(m[3])), hx.N(dtNum(m[1])), hx.N(nodeNum(m[5]))))
 			moves++
 		} else if m := reSkip.FindStringSubmatch(l); m != nil {
@@ -255,18 +305,24 @@ func runEvac(s *Snap, node int, skip bool) (string, bool, int) {
 			panic(fmt.Sprintf("evacuate: unknown plan line %q", l))
 		}
 	}
+	notFound := false
 	if p.Err != "" {
-		m := reFailErr.FindStringSubmatch(p.Err)
-		if m == nil || nodeNum(m[2]) != uint64(node) {
-			panic("evacuate: unexpected error " + p.Err)
+		if m := reNotFound.FindStringSubmatch(p.Err); m != nil && nodeNum(m[1]) == uint64(node) {
+			notFound = true
+		} else {
+			m := reFailErr.FindStringSubmatch(p.Err)
+			if m == nil || nodeNum(m[2]) != uint64(node) {
+				panic("evacuate: unexpected error " + p.Err)
+			}
+			evs = append(evs, "EFail "+hx.N(u(m[1])))
 		}
-		evs = append(evs, "EFail "+hx.N(u(m[1])))
 	}
-	return fmt.Sprintf("REvac %s %s %s", hx.N(uint64(node)), hx.Bool(skip), hx.List(evs)), moves > 0, moves
+	return fmt.Sprintf("REvac %s %s %s %s", hx.N(uint64(node)), hx.Bool(skip), hx.Bool(notFound), hx.List(evs)), moves > 0, moves
 }
 
 func runFix(s *Snap, retry int) (string, bool, int) {
-	p := shell.VerifC15FixReplication(s.topo(), retry)
+	topo := s.topo()
+	p := shell.VerifC15FixReplication(topo, retry)
 	okPlan(p, "fix.replication")
 	if p.Err != "" {
 		panic("fix.replication: unexpected error " + p.Err)
@@ -288,11 +344,166 @@ func runFix(s *Snap, retry int) (string, bool, int) {
 			panic(fmt.Sprintf("fix.replication: unknown plan line %q", l))
 		}
 	}
-	return fmt.Sprintf("RFix %s %s", hx.Nat(retry), hx.List(evs)), acts > 0, acts
+	// final state: VolumeCount of every disk (the planner counts its planned copies there) and
+	// the replica bookkeeping (server ids per volume, in bookkeeping order)
+	var counts []string
+	for _, dc := range topo.DataCenterInfos {
+		for _, rk := range dc.RackInfos {
+			for _, dn := range rk.DataNodeInfos {
+				var dts []string
+				for dt := range dn.DiskInfos {
+					dts = append(dts, dt)
+				}
+				sort.Strings(dts)
+				for _, dt := range dts {
+					counts = append(counts, fmt.Sprintf("(%s, %s, %s)", hx.N(nodeNum(dn.Id)), hx.N(dtNum(dt)), hx.Z(int64(dn.DiskInfos[dt].VolumeCount))))
+				}
+			}
+		}
+	}
+	vids := []int{}
+	for vid := range p.Replicas {
+		vids = append(vids, int(vid))
+	}
+	sort.Ints(vids)
+	var reps []string
+	for _, vid := range vids {
+		var ns []uint64
+		for _, n := range p.Replicas[uint32(vid)] {
+			ns = append(ns, nodeNum(n))
+		}
+		reps = append(reps, hx.Pair(hx.N(uint64(vid)), hx.NList(ns)))
+	}
+	return fmt.Sprintf("RFix %s %s %s %s", hx.Nat(retry), hx.List(evs), hx.List(counts), hx.List(reps)), acts > 0, acts
+}
+
+// ---------- the EC half of volumeServer.evacuate ----------
+type EcVol struct {
+	Id   uint32
+	Bits uint32
+}
+type EcNode struct {
+	Num         int
+	Max, Active uint64
+	Vols        []EcVol
+}
+
+var (
+	reEcMove  = regexp.MustCompile(`^moving ec volume ([0-9]+)\.([0-9]+) (n[0-9]+) => (n[0-9]+)$`)
+	reEcStuck = regexp.MustCompile(`^failed to move away ec volume ([0-9]+) from (n[0-9]+)$`)
+)
+
+func shardIds(bits uint32) (ids []uint64) {
+	for i := 0; i < 14; i++ {
+		if bits&(1<<uint(i)) != 0 {
+			ids = append(ids, uint64(i))
+		}
+	}
+	return
+}
+
+func runEvacEc(nodes []*EcNode, node int, skip bool) (string, string, bool, int) {
+	topo := &master_pb.TopologyInfo{Id: "topo"}
+	rack := &master_pb.RackInfo{Id: "r1"}
+	topo.DataCenterInfos = []*master_pb.DataCenterInfo{{Id: "dc1", RackInfos: []*master_pb.RackInfo{rack}}}
+	var canon strings.Builder
+	for _, n := range nodes {
+		di := &master_pb.DiskInfo{Type: "", MaxVolumeCount: n.Max, ActiveVolumeCount: n.Active}
+		fmt.Fprintf(&canon, "%d:%d/%d", n.Num, n.Max, n.Active)
+		for _, v := range n.Vols {
+			di.EcShardInfos = append(di.EcShardInfos, &master_pb.VolumeEcShardInformationMessage{Id: v.Id, EcIndexBits: v.Bits})
+			fmt.Fprintf(&canon, " %d.%x", v.Id, v.Bits)
+		}
+		canon.WriteString(";")
+		rack.DataNodeInfos = append(rack.DataNodeInfos, &master_pb.DataNodeInfo{Id: nodeName(n.Num), DiskInfos: map[string]*master_pb.DiskInfo{"": di}})
+	}
+	p, free := shell.VerifC15EvacuateEc(topo, nodeName(node), skip)
+	okPlan(p, "evacuate (ec)")
+	var evs []string
+	moves := 0
+	for _, l := range lines(p.Text) {
+		if m := reEcMove.FindStringSubmatch(l); m != nil {
+			if nodeNum(m[3]) != uint64(node) {
+				panic("evacuate (ec): move from another node: " + l)
+			}
+			evs = append(evs, fmt.Sprintf("EcMove %s %s %s", hx.N(u(m[1])), hx.N(u(m[2])), hx.N(nodeNum(m[4]))))
+			moves++
+		} else if m := reEcStuck.FindStringSubmatch(l); m != nil {
+			evs = append(evs, "EcStuck "+hx.N(u(m[1])))
+		} else {
+			panic(fmt.Sprintf("evacuate (ec): unknown plan line %q", l))
+		}
+	}
+	notFound := false
+	if p.Err != "" {
+		e := strings.TrimSuffix(p.Err, "\n")
+		if m := reNotFound.FindStringSubmatch(e); m != nil && nodeNum(m[1]) == uint64(node) {
+			notFound = true
+		} else if m := reEcStuck.FindStringSubmatch(e); m != nil && nodeNum(m[2]) == uint64(node) {
+			evs = append(evs, "EcFail "+hx.N(u(m[1])))
+		} else {
+			panic("evacuate (ec): unexpected error " + p.Err)
+		}
+	}
+	// the model's servers: free EC slots as the real collectEcVolumeServersByDc computed them,
+	// beside the raw MaxVolumeCount / ActiveVolumeCount they must follow from
+	var es, raw []string
+	for _, n := range nodes {
+		var vs []string
+		for _, v := range n.Vols {
+			vs = append(vs, hx.Pair(hx.N(uint64(v.Id)), hx.NList(shardIds(v.Bits))))
+		}
+		f, ok := free[nodeName(n.Num)]
+		if !ok {
+			panic("evacuate (ec): no free slot count for " + nodeName(n.Num))
+		}
+		es = append(es, fmt.Sprintf("{| e_id := %s; e_free := %s; e_vols := %s |}", hx.N(uint64(n.Num)), hx.Z(int64(f)), hx.List(vs)))
+		raw = append(raw, fmt.Sprintf("(%s, %s, %s)", hx.N(uint64(n.Num)), hx.Z(int64(n.Max)), hx.Z(int64(n.Active))))
+	}
+	return fmt.Sprintf("REvacEc %s %s %s %s %s %s", hx.List(es), hx.List(raw), hx.N(uint64(node)), hx.Bool(skip), hx.Bool(notFound), hx.List(evs)),
+		canon.String(), moves > 0, moves
+}
+
+// EC volumes 1..3, each shard id on at most one server; few volume slots so that free EC slots run out
+func genEcNodes(r *hx.Rng) []*EcNode {
+	nn := r.PickInt([]int{1, 2, 2, 3, 3, 3, 4, 5})
+	var nodes []*EcNode
+	for i := 1; i <= nn; i++ {
+		n := &EcNode{Num: i, Max: uint64(r.Range(1, 3))}
+		n.Active = uint64(r.Range(0, int(n.Max)))
+		if r.Chance(1, 12) {
+			n.Active = n.Max + 1 // more volumes than MaxVolumeCount (the limit was lowered)
+		}
+		nodes = append(nodes, n)
+	}
+	nvol := r.Range(1, 3)
+	for id := 1; id <= nvol; id++ {
+		bits := make([]uint32, nn)
+		for sh := 0; sh < 14; sh++ {
+			if r.Chance(2, 3) {
+				k := r.Intn(nn)
+				if r.Chance(1, 2) {
+					k = r.Intn((nn + 1) / 2) // skewed: the first servers hold more
+				}
+				bits[k] |= 1 << uint(sh)
+			}
+		}
+		for i, n := range nodes {
+			if bits[i] != 0 || r.Chance(1, 25) { // rarely an entry without any shard
+				n.Vols = append(n.Vols, EcVol{Id: uint32(id), Bits: bits[i]})
+			}
+		}
+	}
+	return nodes
 }
 
 // ---------- generators ----------
 var rpChoices = []uint32{0, 1, 10, 100, 11, 110, 200, 2}
+
+// rarer settings: z = 2 together with x or y, three levels at once
+var rpRare = []uint32{20, 101, 12, 102, 111, 21, 201}
+
+var dtNames = []string{"", "ssd", "nvme"}
 
 func rpDigits(b uint32) (x, y, z int) { return int(b / 100), int(b / 10 % 10), int(b % 10) }
 
@@ -305,7 +516,8 @@ func genSnap(r *hx.Rng, dense bool) *Snap {
 	if dense {
 		ndc, hiR, hiN = r.Range(1, 2), 2, 2
 	}
-	twoDts := r.Chance(1, 2)
+	nDts := r.PickInt([]int{1, 1, 2, 2, 2, 3})
+	twoDts := nDts > 1
 	num := 0
 	for d := 1; d <= ndc; d++ {
 		nr := r.Range(1, hiR)
@@ -314,18 +526,18 @@ func genSnap(r *hx.Rng, dense bool) *Snap {
 			for j := 0; j < nn; j++ {
 				num++
 				n := &Node{Dc: d, Rack: k, Num: num}
-				if !twoDts {
+				for t := 0; t < nDts; t++ {
+					if nDts == 1 || r.Chance(3, 4) {
+						n.Disks = append(n.Disks, &Disk{Type: dtNames[t], Max: uint64(r.Range(2, 8))})
+					}
+				}
+				if len(n.Disks) == 0 {
 					n.Disks = []*Disk{{Type: "", Max: uint64(r.Range(2, 8))}}
-				} else {
-					hasH, hasS := r.Chance(3, 4), r.Chance(3, 4)
-					if !hasH && !hasS {
-						hasH = true
-					}
-					if hasH {
-						n.Disks = append(n.Disks, &Disk{Type: "", Max: uint64(r.Range(2, 8))})
-					}
-					if hasS {
-						n.Disks = append(n.Disks, &Disk{Type: "ssd", Max: uint64(r.Range(2, 8))})
+				}
+				for _, d := range n.Disks {
+					// slots the master counts although the snapshot lists no volume for them
+					if r.Chance(1, 8) {
+						d.Extra = uint64(r.Range(1, 2))
 					}
 				}
 				s.Nodes = append(s.Nodes, n)
@@ -349,11 +561,14 @@ func genSnap(r *hx.Rng, dense bool) *Snap {
 		if skew && r.Chance(3, 5) {
 			v.Rp = 0
 		}
+		if r.Chance(1, 8) {
+			v.Rp = rpRare[r.Intn(len(rpRare))]
+		}
 		if r.Chance(1, 25) {
 			v.Rp = 120
 		}
 		if twoDts && r.Chance(1, 2) {
-			v.Dt = "ssd"
+			v.Dt = dtNames[r.Range(1, nDts-1)]
 		}
 		v.Size = uint64(r.PickInt([]int{0, 10, 10, 20, 300, 300, 999, 1000, 1200}))
 		v.Ro = r.Chance(1, 5)
@@ -443,21 +658,81 @@ func genSnap(r *hx.Rng, dense bool) *Snap {
 			}
 		}
 		perReplicaState := r.Chance(1, 6)
+		// replicas that disagree about the volume itself (replication setting, collection, disk type)
+		perReplicaKind := r.Chance(1, 10)
 		for _, n := range chosen {
-			d := n.disk(v.Dt)
-			if uint64(len(d.Vols)) >= d.Max {
-				continue // full: this replica is missing
-			}
 			w := v
 			if perReplicaState {
 				w.Ro = r.Chance(1, 2)
 				w.Mtime = int64(r.Range(1, 4))
 				w.Size = uint64(r.PickInt([]int{10, 20, 300, 999}))
 			}
+			if perReplicaKind {
+				if r.Chance(1, 2) {
+					w.Rp = rpChoices[r.Intn(len(rpChoices))]
+				}
+				if r.Chance(1, 3) {
+					w.Coll = r.PickStr(colls)
+				}
+				if r.Chance(1, 3) {
+					w.Dt = n.Disks[r.Intn(len(n.Disks))].Type
+				}
+			}
+			d := n.disk(w.Dt)
+			if d.count() >= d.Max {
+				continue // full: this replica is missing
+			}
 			d.Vols = append(d.Vols, w)
 		}
 	}
+	// a MaxVolumeCount below the number of volumes (the limit was lowered after the disk filled up)
+	for _, n := range s.Nodes {
+		for _, d := range n.Disks {
+			if len(d.Vols) >= 2 && r.Chance(1, 10) {
+				d.Max = uint64(len(d.Vols) - r.Range(1, len(d.Vols)-1))
+			}
+		}
+	}
 	return s
+}
+
+// genCrowdedSnap: the servers the balancer would like to fill are full of volumes OUTSIDE the
+// selection (read-only, or of another collection), the source servers hold small writable
+// volumes of collection c1 (finding 0: those slots are not counted).
+func genCrowdedSnap(r *hx.Rng) (*Snap, []string) {
+	s := &Snap{}
+	nsrc, ntgt := r.Range(1, 2), r.Range(1, 3)
+	num := 0
+	id := uint32(0)
+	otherColl := r.Chance(1, 2) // targets full of another collection instead of read-only volumes
+	for i := 0; i < nsrc+ntgt; i++ {
+		num++
+		n := &Node{Dc: 1, Rack: 1 + i%2, Num: num, Disks: []*Disk{{Type: "", Max: uint64(r.Range(2, 5))}}}
+		d := n.Disks[0]
+		if i < nsrc {
+			k := r.Range(2, int(d.Max))
+			for j := 0; j < k; j++ {
+				id++
+				d.Vols = append(d.Vols, Vol{Id: id, Coll: "c1", Size: uint64(r.PickInt([]int{10, 20, 300})), Mtime: 1})
+			}
+		} else {
+			k := int(d.Max) - r.PickInt([]int{0, 0, 0, 1})
+			for j := 0; j < k; j++ {
+				id++
+				v := Vol{Id: id, Coll: "c1", Size: uint64(r.PickInt([]int{10, 999, 1200})), Ro: true, Mtime: 1}
+				if otherColl {
+					v = Vol{Id: id, Coll: "c2", Size: 10, Mtime: 1}
+				}
+				d.Vols = append(d.Vols, v)
+			}
+		}
+		s.Nodes = append(s.Nodes, n)
+	}
+	sort.SliceStable(s.Nodes, func(i, j int) bool { return s.Nodes[i].Rack < s.Nodes[j].Rack })
+	if otherColl {
+		return s, []string{"c1"}
+	}
+	return s, []string{"ALL_COLLECTIONS"}
 }
 
 // genSpreadSnap: replicated volumes spread over FULL source servers on several racks / data
@@ -487,17 +762,33 @@ func genSpreadSnap(r *hx.Rng) *Snap {
 			}
 		}
 	}
-	// the empty servers: one more rack of a random data center (or, sometimes, a new data center)
-	edc := r.Range(1, ndc)
-	erack := 4
-	if r.Chance(1, 5) {
-		edc, erack = ndc+1, 1
-	}
+	// the empty servers: new racks of the existing data centers or a new data center.  Two times
+	// out of three every empty server gets its own rack (several replicas of one volume can move
+	// in one run, each later move decided on the bookkeeping left by the earlier ones), otherwise
+	// they share one rack (the second replica of a 0y0 volume must then be refused).
 	nempty := r.Range(2, 3)
+	ownRack := r.Chance(2, 3)
+	edc := r.Range(1, ndc)
+	newDc := r.Chance(1, 5)
 	var empties []*Node
 	for j := 0; j < nempty; j++ {
 		num++
-		empties = append(empties, &Node{Dc: edc, Rack: erack, Num: num, Disks: []*Disk{{Type: "", Max: uint64(r.Range(3, 6))}}})
+		dc, rack := edc, 4
+		if ownRack {
+			rack = 4 + j
+			if r.Chance(1, 3) {
+				dc = r.Range(1, ndc)
+			}
+		}
+		if newDc && (j == 0 || !ownRack || r.Chance(1, 2)) {
+			dc = ndc + 1
+			if ownRack {
+				rack = 1 + j
+			} else {
+				rack = 1
+			}
+		}
+		empties = append(empties, &Node{Dc: dc, Rack: rack, Num: num, Disks: []*Disk{{Type: "", Max: uint64(r.Range(3, 6))}}})
 	}
 	// keep eachDataNode order: nodes grouped by dc, then rack
 	s.Nodes = append(s.Nodes, empties...)
@@ -514,7 +805,7 @@ func genSpreadSnap(r *hx.Rng) *Snap {
 	} else {
 		rps = []uint32{100, 100, 110, 10}
 	}
-	nrep := r.Range(1, 2)
+	nrep := r.Range(1, 3)
 	id := uint32(0)
 	for i := 0; i < nrep; i++ {
 		id++
@@ -624,11 +915,84 @@ func witnesses(out *hx.Out) {
 		mk(2, 1, 4, 4, vol(1, 120, 10)), mk(2, 2, 5, 4)}}
 	t, nt, _ = runEvac(s, 3, true)
 	out.Add(mkCase(s, t), "w5|"+s.canon(), nt, "witness")
+	// k=3: over-replicated 010 volume on n1 (r1), n2 (r1), n3 (r2); n3 is the oldest copy and is purged,
+	// the two copies left share rack r1 although {n1, n3} and {n2, n3} were valid layouts
+	mt := func(v Vol, m int64) Vol { v.Mtime = m; return v }
+	s = &Snap{Nodes: []*Node{mk(1, 1, 1, 4, mt(vol(1, 10, 10), 2)), mk(1, 1, 2, 4, mt(vol(1, 10, 10), 2)), mk(1, 2, 3, 4, mt(vol(1, 10, 10), 1))}}
+	t, nt, _ = runFix(s, 0)
+	out.Add(mkCase(s, t), "w6|"+s.canon(), nt, "witness")
+	// one volume moved twice in one run: 010 volume 1 on the full servers n1 (r1), n2 (r2); n3 (r3), n4 (r4) empty
+	s = &Snap{Nodes: []*Node{mk(1, 1, 1, 2, vol(1, 10, 10), vol(11, 0, 500)), mk(1, 2, 2, 2, vol(1, 10, 10), vol(21, 0, 500)),
+		mk(1, 3, 3, 4), mk(1, 4, 4, 4)}}
+	t, nt, n := runBalance(s, []string{"ALL_COLLECTIONS"})
+	if n != 2 || maxMovesOfOneVolume(t) != 2 {
+		// not fatal for the check (the case is judged in Coq), but the witness no longer shows two moves of one volume
+		out.Count("witness:two-moves-lost", 1)
+	}
+	out.Add(mkCase(s, t), "w7|"+s.canon(), nt, "witness")
+	// the same with n3 and n4 on ONE rack: the second copy of volume 1 must stay, a 000 volume goes instead
+	s = &Snap{Nodes: []*Node{mk(1, 1, 1, 2, vol(1, 10, 10), vol(11, 0, 500)), mk(1, 2, 2, 2, vol(1, 10, 10), vol(21, 0, 500)),
+		mk(1, 3, 3, 4), mk(1, 3, 4, 4)}}
+	t, nt, _ = runBalance(s, []string{"ALL_COLLECTIONS"})
+	out.Add(mkCase(s, t), "w8|"+s.canon(), nt, "witness")
+	// k=4: evacuating n1 sends all three shards of EC volume 7 to n2 (fewest shards of volume 7),
+	// which has no free EC slot (its one volume slot is in use); n3 has 18 free slots
+	t, c, nt, _ := runEvacEc([]*EcNode{{Num: 1, Max: 1, Vols: []EcVol{{7, 0b111}}}, {Num: 2, Max: 1, Active: 1}, {Num: 3, Max: 2, Vols: []EcVol{{7, 0b11000}}}}, 1, true)
+	out.Add(mkCase(&Snap{}, t), "w9|"+c, nt, "witness")
+}
+
+// movesOfOneVolume: the largest number of moves of one volume id in a balance plan term
+var reMoveTerm = regexp.MustCompile(`Move ([0-9]+)%N`)
+
+func maxMovesOfOneVolume(term string) int {
+	cnt := map[string]int{}
+	best := 0
+	for _, m := range reMoveTerm.FindAllStringSubmatch(term, -1) {
+		cnt[m[1]]++
+		if cnt[m[1]] > best {
+			best = cnt[m[1]]
+		}
+	}
+	return best
+}
+
+// a valid layout for replication b inside the 27-server universe of the function-level cases
+// (3 data centers x 3 racks x 3 servers); nil when b asks for more than the universe has
+func genValidReps(r *hx.Rng, b uint32) ([]shell.VerifC15Loc, []string) {
+	x, y, z := rpDigits(b)
+	if x > 2 || y > 2 || z > 2 {
+		return nil, nil
+	}
+	var reps []shell.VerifC15Loc
+	var creps []string
+	add := func(dc, rack, k int) {
+		node := (dc-1)*9 + (rack-1)*3 + k
+		reps = append(reps, shell.VerifC15Loc{Dc: dcName(dc), Rack: rackName(rack), Node: nodeName(node)})
+		creps = append(creps, coqLoc(dc, rack, node))
+	}
+	dcs := []int{1, 2, 3}
+	racks := []int{1, 2, 3}
+	for i := 2; i > 0; i-- {
+		j := r.Intn(i + 1)
+		dcs[i], dcs[j] = dcs[j], dcs[i]
+		j = r.Intn(i + 1)
+		racks[i], racks[j] = racks[j], racks[i]
+	}
+	for k := 1; k <= z+1; k++ {
+		add(dcs[0], racks[0], k)
+	}
+	for i := 1; i <= y; i++ {
+		add(dcs[0], racks[i], r.Range(1, 3))
+	}
+	for i := 1; i <= x; i++ {
+		add(dcs[i], r.Range(1, 3), r.Range(1, 3))
+	}
+	return reps, creps
 }
 
 func main() {
 	out := hx.Flags("C15", 300)
-	out.Rule = "random snapshots (2-3 DCs x 1-3 racks x 1-3 servers, 1-2 disk types, 2-8 slots per disk, 3-10 volumes, replication in {000,001,010,100,011,110,200,002,120}, replica sets valid/under/over/misplaced, per-replica read-only/size, 1-2 collections) plus a 'spread' family for balance (replicated 010/020/011/100/110 volumes on FULL servers of several racks/data centers, empty servers on one rack: several replicas of one volume move in one run); fed to the real balance (ALL/EACH/one collection; the planner's final replica bookkeeping incl. data center and rack is compared with the model's), evacuate (random server, skipNonMoveable on/off) and fix.replication (-retry 0..2) planners in dry-run; plus direct isGoodMove/satisfyReplicaPlacement/NewReplicaPlacementFromByte calls over a 27-server universe; the first 6 cases are the witnesses of the three known findings (cases 0, 1, 5) and of the three repaired defects (cases 2, 3, 4, now ok); non-trivial = the plan has at least one step (function cases: result true); distinct = canonical snapshot + run parameters"
+	out.Rule = "random snapshots (2-3 DCs x 1-3 racks x 1-3 servers, 1-3 disk types, 2-8 slots per disk, VolumeCount sometimes above the listed volumes, MaxVolumeCount sometimes below them, 3-10 volumes, replication in {000,001,010,100,011,110,200,002} + rarer {020,101,012,102,111,021,201,120}, replica sets valid/under/over/misplaced, per-replica read-only/size/mtime, sometimes per-replica replication/collection/disk type, 1-2 collections) plus two balance families: 'spread' (replicated 010/020/011/100/110 volumes on FULL servers of several racks/data centers, 2-3 empty servers on their own racks (2/3) or on one rack (1/3), sometimes in a new data center: several replicas of one volume move in one run / the second move must be refused) and 'crowded' (target servers full of read-only or other-collection volumes: finding 0); fed to the real balance (ALL/EACH/one collection; the planner's final replica bookkeeping incl. data center and rack is compared with the model's), evacuate (random server, 1/15 a server not in the cluster, skipNonMoveable on/off) and fix.replication (-retry 0..2; VolumeCount of every disk and the replica lists afterwards are compared) planners in dry-run; plus direct isGoodMove/satisfyReplicaPlacement/NewReplicaPlacementFromByte calls over a 27-server universe (half of them starting from a valid layout); plus the EC half of evacuate (1-5 servers on one rack, 1-3 volume slots, EC volumes 1..3 with each shard id on at most one server, rarely an entry without shards or ActiveVolumeCount above MaxVolumeCount; free EC slots as the real collectEcVolumeServersByDc computes them); the first 10 cases are deterministic: witnesses of the five known findings (cases 0, 1, 5, 6, 9), of the three repaired defects (cases 2, 3, 4, now ok), one volume moved twice in one run (case 7) and the refused second move (case 8); non-trivial = the plan has at least one step (function cases: result true); distinct = canonical snapshot + run parameters"
 	witnesses(out)
 	// consecutive seeds of hx.NewRng give shifted copies of one stream: mix the seed first
 	root := hx.NewRng(hx.NewRng(out.Seed).Next())
@@ -636,9 +1000,10 @@ func main() {
 		r := root.Fork()
 		k := r.Intn(20)
 		switch {
-		case k < 8:
+		case k < 7:
 			s := genSnap(r, r.Chance(3, 4))
-			spread := r.Chance(1, 3)
+			fam := r.Intn(12) // 0-3 spread, 4-5 crowded, else general
+			spread := fam < 4
 			if spread {
 				s = genSpreadSnap(r)
 				out.Count("balance:spread", 1)
@@ -648,7 +1013,13 @@ func main() {
 			if spread {
 				mode = r.Intn(2)
 			}
+			if fam == 4 || fam == 5 {
+				s, colls = genCrowdedSnap(r)
+				out.Count("balance:crowded", 1)
+				mode = 3
+			}
 			switch mode {
+			case 3:
 			case 0:
 				colls = []string{"ALL_COLLECTIONS"}
 			case 1: // EACH_COLLECTION: the collection names present, sorted
@@ -670,15 +1041,48 @@ func main() {
 			t, nt, n := runBalance(s, colls)
 			out.Count("balance:moves", n)
 			out.Count(fmt.Sprintf("balance:mode%d", mode), 1)
+			if m := maxMovesOfOneVolume(t); m >= 2 {
+				out.Count("balance:runs-moving-one-volume-twice", 1)
+				if spread {
+					out.Count("balance:spread-runs-moving-one-volume-twice", 1)
+				}
+			}
+			out.Count("balance:moves-to-a-full-server", lastFullTargets)
+			if nt && lastFullTargets == 0 {
+				out.Count("balance:runs-with-moves-all-to-free-slots", 1)
+			} else if nt {
+				out.Count("balance:runs-with-a-move-to-a-full-server", 1)
+			}
 			out.Add(mkCase(s, t), "B|"+strings.Join(colls, ",")+"|"+s.canon(), nt, "balance")
-		case k < 13:
+		case k == 7:
+			nodes := genEcNodes(r)
+			node := nodes[r.Intn(len(nodes))].Num
+			if r.Chance(1, 15) {
+				node = len(nodes) + r.Range(1, 3)
+				out.Count("evacuate-ec:unknown-server", 1)
+			}
+			skip := r.Chance(2, 3)
+			t, c, nt, n := runEvacEc(nodes, node, skip)
+			out.Count("evacuate-ec:shard-moves", n)
+			out.Add(mkCase(&Snap{}, t), fmt.Sprintf("EC|%d|%v|%s", node, skip, c), nt, "evacuate-ec")
+		case k < 11:
 			s := genSnap(r, r.Chance(1, 2))
 			node := s.Nodes[r.Intn(len(s.Nodes))].Num
+			if r.Chance(1, 15) {
+				node = len(s.Nodes) + r.Range(1, 5) // not a server of this cluster
+				out.Count("evacuate:unknown-server", 1)
+			}
 			skip := r.Chance(2, 3)
 			t, nt, n := runEvac(s, node, skip)
 			out.Count("evacuate:moves", n)
+			out.Count("evacuate:moves-to-a-full-server", lastFullTargets)
+			if nt && lastFullTargets == 0 {
+				out.Count("evacuate:runs-with-moves-all-to-free-slots", 1)
+			} else if nt {
+				out.Count("evacuate:runs-with-a-move-to-a-full-server", 1)
+			}
 			out.Add(mkCase(s, t), fmt.Sprintf("E|%d|%v|%s", node, skip, s.canon()), nt, "evacuate")
-		case k < 18:
+		case k < 15:
 			s := genSnap(r, r.Chance(1, 3))
 			retry := r.PickInt([]int{0, 0, 0, 1, 2})
 			t, nt, n := runFix(s, retry)
@@ -705,6 +1109,19 @@ func main() {
 				creps = append(creps, c)
 			}
 			tgt, ctgt := genLoc(r)
+			// half of the time start from a VALID layout for b, so that isGoodMove / satisfy say yes
+			// and the placement oracle has something to check
+			if r.Chance(1, 2) {
+				if vr, vc := genValidReps(r, uint32(b)); vr != nil {
+					reps, creps = vr, vc
+					if r.Chance(1, 3) && len(reps) > 1 { // one copy missing
+						k := r.Intn(len(reps))
+						reps = append(append([]shell.VerifC15Loc{}, reps[:k]...), reps[k+1:]...)
+						creps = append(append([]string{}, creps[:k]...), creps[k+1:]...)
+					}
+					out.Count("fn:valid-start", 1)
+				}
+			}
 			empty := &Snap{}
 			switch r.Intn(5) {
 			case 0:
